@@ -255,6 +255,22 @@ func frameObligations(p *Program, x *Exec, fi *FuncInfo, fc *FuncContract) {
 			o.Output = "the body (or a callee) may write through the receiver or a pointer/map parameter"
 		}
 	}
+	if fc.Flags["noalias"] {
+		o := w.Oblige(x.oblName("frame:noalias", ""), "frame", True, True)
+		o.Preset, o.Solver, o.Result = true, "alias-rules", "unsat"
+		if sites := AliasReuseSites(fi); len(sites) > 0 {
+			o.Result = "sat"
+			o.Output = "slice value shares a live backing array that is appended to later: " + strings.Join(sites, "; ")
+		}
+	}
+	for _, f := range fc.Fresh {
+		o := w.Oblige(x.oblName("frame:fresh", f), "frame", True, True)
+		o.Preset, o.Solver, o.Result = true, "alias-rules", "unsat"
+		if sites := StaleFieldStores(fi, f); len(sites) > 0 {
+			o.Result = "sat"
+			o.Output = "value stored into field " + f + " is not a fresh slice: " + strings.Join(sites, "; ")
+		}
+	}
 	for _, f := range fc.MustRead {
 		o := w.Oblige(x.oblName("frame:mustread", f), "frame", True, True)
 		o.Preset = true
